@@ -12,6 +12,7 @@ import Driver.C10
 import Driver.C17
 import Driver.C03
 import Driver.Faults
+import Driver.Ieee
 open Sf
 
 def lawOf (s : String) : Option G711.Law :=
@@ -67,4 +68,5 @@ def main (args : List String) : IO UInt32 := do
   | "c17grid" :: rest => C17Driver.main rest
   | "c03" :: rest => C03Driver.main rest
   | "faults" :: rest => FaultsDriver.cmd rest
+  | "ieee" :: rest => Driver.Ieee.cmd rest
   | _ => IO.eprintln "usage: sfmodel <g711|...> ..."; return 2
